@@ -63,11 +63,11 @@ class C04(Check):
                 for auto in (False, True):
                     n += 1
                     yield dict(kind="estimator", seed=seed * 100003 + n, members=members, auto=auto)
-        for i in range(80 if q else 3000):
+        for i in range(300 if q else 8000):
             yield dict(kind="nz", seed=seed * 1009 + i, ref=bool(i % 2), unk=bool((i // 2) % 2))
-        for i in range(60 if q else 2000):
+        for i in range(200 if q else 5000):
             yield dict(kind="normalise", seed=seed * 1013 + i)
-        for i in range(16 if q else 400):
+        for i in range(48 if q else 1000):
             yield dict(kind="e2e", seed=seed * 1019 + i)
 
     def setup_worker(self):
